@@ -375,19 +375,28 @@ func ruleFmtF(c *Ctx) {
 	bad := ""
 	n := 0
 	for _, digs := range []string{"", "7", "25", "123", "9000001"} {
-		for e := -9; e <= 5 && bad == ""; e++ {
-			if digs == "" && e != 0 {
+		exps := []int{-40, -33, -17, -16, -9, -7, -4, -3, -2, -1, 0, 1, 2, 3, 5, 20}
+		if c.Tier == "thorough" {
+			exps = []int{-70, -40, -33, -32, -18, -17, -16, -15, -9, -8, -7, -6, -5, -4, -3, -2, -1, 0, 1, 2, 3, 4, 5, 17, 20, 40}
+		}
+		for _, e := range exps {
+			if bad != "" || (digs == "" && e != 0) {
 				continue
 			}
-			if c.Tier != "thorough" && (e == -8 || e == -6 || e == -5 || e == 4) {
-				continue
+			precs := []int{0, 1, 2, 3, 5, 8, 9, 11}
+			if c.Tier == "thorough" {
+				precs = []int{0, 1, 2, 3, 4, 5, 6, 7, 8, 9, 10, 11}
 			}
-			for prec := 0; prec <= 11 && bad == ""; prec++ {
+			if e < -9 {
+				// long runs of leading fraction zeros
+				precs = []int{-e, -e + 1, -e + 6}
+			}
+			for _, prec := range precs {
+				if bad != "" {
+					break
+				}
 				if -e > prec {
 					continue // callers round to the precision first: the fraction never exceeds it
-				}
-				if c.Tier != "thorough" && (prec == 4 || prec == 6 || prec == 7 || prec == 10) {
-					continue
 				}
 				for _, forceDP := range []bool{false, true} {
 					for _, sg := range []struct {
